@@ -52,6 +52,8 @@ def tMid : GoType := .struct "Mid" [("Port", "", .int .u16), ("Geo", ",inline", 
 /-- two levels of inlining, neither inlined struct at offset 0 -/
 def tS4 : GoType := .struct "S4" [("ID", "", .int .i64), ("Count", "", .int .i8), ("Mid", ",inline", tMid), ("Last", "", .bool)]
 
+def tEmpty : GoType := .struct "Empty" []
+
 def tBadInline : GoType := .struct "BadInline" [("P", ",inline", .ptr tIn)]
 def tDup : GoType := .struct "Dup" [("A", "", tInt), ("B", "a", tInt)]
 def tArr : GoType := .struct "Arr" [("A", "", .array 3 tInt)]
@@ -107,7 +109,7 @@ def tNamed : GoType := .struct "Named" [
 
 def structTable : StructTable
   | "In" => some tIn | "In2" => some tIn2
-  | "S1" => some tS1 | "S2" => some tS2 | "S3" => some tS3 | "S4" => some tS4 | "Geo" => some tGeo | "Mid" => some tMid
+  | "S1" => some tS1 | "S2" => some tS2 | "S3" => some tS3 | "S4" => some tS4 | "Empty" => some tEmpty | "Geo" => some tGeo | "Mid" => some tMid
   | "BadInline" => some tBadInline | "Dup" => some tDup | "Arr" => some tArr | "IMap" => some tIMap
   | "List" => some tList | "Tree" => some tTree | "A" => some tA | "B" => some tB
   | "RL" => some tRL | "RM" => some tRM | "BadA" => some tBadA | "BadB" => some tBadB
